@@ -100,9 +100,8 @@ pub proof fn lemma_slice_of_slice(inner: Seq<int>, s0: usize, e0: Option<usize>,
     assert(l =~= r);
 }
 
-/// std: Option::or / Option::and (documented meaning), so that a body using them stays within the dialect
-pub assume_specification<T> [Option::<T>::or] (a: Option<T>, b: Option<T>) -> (r: Option<T>)
-    ensures r == (if a is Some { a } else { b });
+
+// @@INCLUDE stdx@@
 
 // @@EXTRACTED@@
 
